@@ -11,6 +11,8 @@ RULE = ('cases = seeded data sets x center lists (subsets of the data, foreign '
         'points, duplicates, more centers than frames) x metric; length '
         'vectors (equal, unequal, with 1s) with flat center indices placed on '
         'first/last frames of trajectories; estimator predict on new data; '
+        '"traj" cases assign md.Trajectory frames to md.Trajectory / list '
+        'centers with the RMSD metric (more and fewer centers than frames); '
         '"batch" cases run reassign()/batch_reassign on generated trajectory '
         'files in several batches; non-trivial = assignment with >=3 centers '
         'of which >=2 own frames and a partition with unequal lengths whose '
@@ -25,10 +27,14 @@ ASSUMPTIONS = ['brute-force float64 distance matrix is the oracle; ties '
 
 def shards(tier):
     if tier == 'quick':
-        return [dict(kind='assign', n=3000, parts=15, timeout=900),
+        return [dict(kind='assign', n=3000, parts=12, timeout=900),
+                dict(kind='traj', n=240, parts=3, timeout=900,
+                     env={'OMP_NUM_THREADS': 1}),
                 dict(kind='batch', n=32, parts=4, timeout=900,
                      env={'OMP_NUM_THREADS': 1})]
-    return [dict(kind='assign', n=90000, parts=14, timeout=3400),
+    return [dict(kind='assign', n=90000, parts=11, timeout=3400),
+            dict(kind='traj', n=6000, parts=3, timeout=3400,
+                 env={'OMP_NUM_THREADS': 1}),
             dict(kind='batch', n=400, parts=4, timeout=3400,
                  env={'OMP_NUM_THREADS': 1})]
 
@@ -111,6 +117,8 @@ def gen_lengths(rng, n):
 def run_case(ctx, kind, rng, idx):
     if kind == 'batch':
         return run_batch(ctx, rng, idx)
+    if kind == 'traj':
+        return run_traj(ctx, rng, idx)
     from vf.monitor import Frozen
     X, info = cc.gen_data(rng, nmax=50)
     n, d = X.shape
@@ -356,3 +364,61 @@ def run_batch(ctx, rng, idx):
         ctx.sample(desc)
     finally:
         shutil.rmtree(tmp, ignore_errors=True)
+
+
+def run_traj(ctx, rng, idx):
+    """Molecular trajectories with the RMSD metric: centers given as an
+    md.Trajectory (more or fewer centers than frames - the two code paths of
+    assign_to_nearest_center) or as a list of one-frame trajectories."""
+    import mdtraj as md
+    from vf import trajgen
+    n_atoms = int(rng.integers(4, 9))
+    n_frames = int(rng.integers(1, 13))
+    top = trajgen.topology(n_atoms)
+    frames = md.Trajectory(trajgen.random_xyz(rng, n_frames, n_atoms), top)
+    k = int(rng.integers(1, 16))
+    related = rng.random() < 0.3
+    if related:
+        cx = frames.xyz[rng.integers(0, n_frames, size=k)].copy()
+    else:
+        cx = trajgen.random_xyz(rng, k, n_atoms)
+    as_traj = rng.random() < 0.6
+    centers_t = md.Trajectory(cx, top)
+    cen_arg = centers_t if as_traj else [centers_t[i] for i in range(k)]
+    desc = {'frames': n_frames, 'centers': k, 'atoms': n_atoms,
+            'centers_as': 'Trajectory' if as_traj else 'list',
+            'centers_are_frames': related}
+    ctx.describe(desc)
+    ctx.seen('traj_paths', '%s/%s' % (
+        'Trajectory' if as_traj else 'list',
+        'more-centers' if k > n_frames else 'fewer-or-equal'))
+    fx, fc = frames.xyz.copy(), cx.copy()
+    try:
+        a, dd = util.assign_to_nearest_center(frames, cen_arg, md.rmsd)
+    except Exception as e:  # noqa
+        ctx.crash('assign.traj.raised', e)
+        return
+    # (md.rmsd itself centres both trajectories in place - mdtraj behaviour,
+    # not enspara's - so coordinates are not compared before/after here)
+    D = np.stack([md.rmsd(frames, centers_t, frame=i) for i in range(k)],
+                 axis=1).astype(float)
+    mn = D.min(axis=1)
+    a = np.asarray(a)
+    dd = np.asarray(dd, dtype=float)
+    if a.shape != (n_frames,) or np.any(a < 0) or np.any(a >= k):
+        ctx.violation('assign.traj.labels', 'labels %s for %d centers' % (
+            a.tolist(), k))
+        return
+    if np.any(np.abs(dd ** 2 - mn ** 2) > 2e-5):
+        i = int(np.argmax(np.abs(dd ** 2 - mn ** 2)))
+        ctx.violation('assign.traj.distance-not-minimal[%s]' % (
+            'more-centers' if k > n_frames else 'fewer'),
+            'frame %d: reported %.6g, minimal rmsd over the centers %.6g '
+            '(centers given as %s)' % (i, dd[i], mn[i], desc['centers_as']))
+    elif np.any(D[np.arange(n_frames), a] ** 2 > mn ** 2 + 2e-5):
+        ctx.violation('assign.traj.label-not-nearest[%s]' % (
+            'more-centers' if k > n_frames else 'fewer'),
+            'a frame is labelled with a farther center')
+    elif k >= 2 and not related:
+        ctx.nontriv('traj', frames.xyz.tobytes(), cx.tobytes(), as_traj)
+    ctx.count('traj_assignments_checked')
